@@ -18,6 +18,10 @@ ENTRIES = [
     ("now", "now", "now()::hours", "clock_reads"),
     ("random_float", "random", "floor(random() * 10.0)", "rng_draws"),
     ("sample", "random", "[1, 2, 3, 4].sample(2).len()", "rng_draws"),
+    ("sample_pick_path", "random", "range(1000).sample(2).len()", "rng_draws"),
+    ("sample_pool_path_long", "random", "range(40).to_array().sample(30).len()", "rng_draws"),
+    ("shuffle_long", "random", "range(300).to_array().shuffle().len()", "rng_draws"),
+    ("random_choices_many", "random", "[1, 2, 3].random_choices(300).len()", "rng_draws"),
     ("sample_counts", "random", "[1, 2, 3].sample(2, [1, 2, 3]).len()", "rng_draws"),
     ("shuffle", "random", "[1, 2, 3, 4].shuffle().len()", "rng_draws"),
     ("random_choices", "random", "[1, 2, 3].random_choices(4).len()", "rng_draws"),
